@@ -105,6 +105,9 @@ class Sign(Engine):
                        'kind': rng.choice(['valid', 'other-message', 'zero-r', 'zero-s', 'r=n', 's=n', 'twin', 'random', 'other-key', 'r+n',
                                             'pubkey-offcurve', 'pubkey-garbage', 'pubkey-empty', 'pubkey-hybrid', 'pubkey-offcurve-x-x']),
                        'nonce': '%064x' % self.gen_nonce(rng), 'rand': [gen.rhex(rng, 32), gen.rhex(rng, 32)]})
+                elif r < 0.72:
+                    S({'op': 'verify_matrix', 'digest': self.gen_digest(rng), 'nonces': ['%064x' % self.gen_nonce(rng) for _ in range(4)],
+                       'order': [rng.randrange(1 << 16) for _ in range(8)], 'extra_secret': '%064x' % self.gen_secret(rng)})
                 elif r < 0.85:
                     S({'op': 'pub', 'how': rng.choice(['comp', 'uncomp', 'hybrid', 'hybrid-badparity', 'offcurve-c', 'offcurve-u', 'badprefix', 'x>=p', 'zeros', 'random33', 'random65',
                                                        'uncomp-yflip', 'len32', 'len64']),
@@ -353,6 +356,47 @@ class Sign(Engine):
                   % (kind, got, want), kind=kind, want=want)
         ctx.fault('crafted-signature.' + kind)
         ctx.log(0, 0, 'crafted', '', '%s/%r' % (kind, want))
+
+    def _op_verify_matrix(self, a):
+        """Several public-key objects are parsed first, then used in another order: every (key object,
+        signature) pair must verify exactly when the signature was made with that key."""
+        ctx, K = self.ctx, self.K
+        ks = list(self.keys)
+        xd = int(a['extra_secret'], 16)
+        ks.append({'d': xd, 'Q': EC.mul(xd, EC.G), 'comp': True, 'pub': EC.point_encode(EC.mul(xd, EC.G), True)})
+        if len(ks) < 2:
+            return
+        digest = bytes.fromhex(a['digest'])
+        z = int.from_bytes(digest, 'big')
+        sigs = []
+        for j, k in enumerate(ks):
+            r, s_, _ = EC.sign_with_k(k['d'], z, int(a['nonces'][j % len(a['nonces'])], 16))
+            sigs.append((r, s_))
+        pubs = [K.CPubKey(k['pub']) for k in ks]            # all parsed before any is used
+        # an invalid key parsed last must not disturb the earlier ones either
+        junk = K.CPubKey(b'\x04' + ks[0]['Q'][0].to_bytes(32, 'big') + bytes(32))
+        pairs = [(i, j) for i in range(len(ks)) for j in range(len(ks))]
+        o = a['order']
+        pairs.sort(key=lambda p: (o[(p[0] * 3 + p[1]) % len(o)], p))
+        for (i, j) in pairs:
+            r, s_ = sigs[j]
+            if r == 0 or s_ == 0:
+                continue
+            want = EC.verify(ks[i]['Q'], z, r, s_)
+            try:
+                got = pubs[i].verify(digest, EC.der_encode(r, s_))
+            except Exception as e:
+                got = 'raised %s' % type(e).__name__
+            ctx.carry()
+            ctx.check(got is want, 'C13.verify-iff', 'public-key object %d of %d (parsed before the others were used) verifying the signature of key %d returned %r, reference says %r'
+                      % (i, len(ks), j, got, want), want=want, same=(i == j))
+        try:
+            gj = junk.verify(digest, EC.der_encode(*sigs[-1]))
+        except Exception as e:
+            gj = 'raised %s' % type(e).__name__
+        ctx.check(gj is False, 'C13.verify-iff', 'an invalid public key parsed after valid ones verified a signature: %r' % (gj,), want=False)
+        ctx.fault('interleaved-key-objects', len(pairs))
+        ctx.log(0, 0, 'verify_matrix', '', 'n%d' % len(ks))
 
     def _op_pub(self, a):
         ctx, K = self.ctx, self.K
